@@ -82,8 +82,8 @@ extern long mpt_buffer_set(MPT_STRUCT(buffer) *buf, const MPT_STRUCT(type_traits
 	}
 	/* terminate overlapping target data */
 	if (fini) {
-		size_t off;
-		for (off = pos; off < used; off += elem_size) {
+		size_t off, stop = (used < end) ? used : end;
+		for (off = pos; off < stop; off += elem_size) {
 			fini(ptr + off);
 		}
 	}
@@ -126,9 +126,9 @@ extern long mpt_buffer_set(MPT_STRUCT(buffer) *buf, const MPT_STRUCT(type_traits
 				/* invalidate remaining data as result of fatal error */
 				buf->_used = pos;
 				if (fini) {
-					while (pos < used) {
+					/* replaced elements are already terminated */
+					for (pos = end; pos < used; pos += elem_size) {
 						fini(ptr + pos);
-						pos += elem_size;
 					}
 				}
 				return count;
